@@ -285,11 +285,14 @@ func verifValue(name string) []byte {
 		verifAssume(l >= verifParam("vwin_lo"))
 		verifAssume(l <= hi)
 	}
-	if l > 64 && verifParam("sparse") == 1 {
+	if sp := verifParam("sparse"); l > 64 && sp >= 1 {
 		// long values at real geometry: concrete filler with symbolic first, middle and last bytes
+		// (sparse 2: the filler is ZERO - sparse / zero-padded buffers, whose bytes look like unwritten space)
 		v := make([]byte, l)
 		for i := range v {
-			v[i] = byte(i*131 + 7)
+			if sp == 1 {
+				v[i] = byte(i*131 + 7)
+			}
 		}
 		v[0], v[l/2], v[l-1] = verifU8(name+"-b0"), verifU8(name+"-bm"), verifU8(name+"-bl")
 		return v
